@@ -1044,6 +1044,17 @@ func MergeSpecs() []*LSpec {
 		}
 		out = append(out, s)
 	}
+	{
+		// two output paths that differ only in the letter case of a directory: different
+		// files (and packages) on a case-sensitive file system, each written where selected
+		s := &LSpec{UserPkgs: map[string]string{}, PkgNames: map[string]string{"svc/conv": "conv", "a": "a"}}
+		s.Convs = []LConv{
+			{Dir: "svc/conv", File: "conv.go", Kind: "interface", Name: "Ka", Version: 1, OutFile: "./Gen/mapper.go", OutPkg: ":mapgen"},
+			{Dir: "svc/conv", File: "conv.go", Kind: "interface", Name: "Kb", Version: 1, OutFile: "./gen/mapper.go", OutPkg: ":mapgen"},
+			{Dir: "a", File: "other.go", Kind: "interface", Name: "Kc", Version: 1, OutFile: "@cwd/svc/conv/gen/Mapper2.go", OutPkg: ":mapgen"},
+		}
+		out = append(out, s)
+	}
 	// one file selected through three spellings (relative with .., absolute and @cwd/ with
 	// redundant segments): still the same file, the converters must be merged
 	for _, format := range []string{"struct", "function"} {
